@@ -342,7 +342,8 @@ def _fixed_job(job, scratch):
         if rng.random() < 0.5 and spec["workers"] > 1:
             spec["segments"] = [{"steps": spec["steps"],
                                  "kill_after": rng.randint(
-                                     spec["workers"], spec["steps"] - 1)}]
+                                     min(spec["workers"], spec["steps"] - 1),
+                                     spec["steps"] - 1)}]
         cdir = os.path.join(scratch, f"f{i}")
         rig, info = run_case(spec, cdir, [])
         if not os.path.isfile(os.path.join(cdir, "restart.toml")):
